@@ -395,7 +395,7 @@ fn run_lattice_case(case_seed: u64, rep: &mut Report, verbose: bool) {
     let mut rng = Rng::new(case_seed);
     let replay = vec!["--mode".into(), "lattice".into(), "--case".into(), format!("{}", case_seed)];
     let mut cx = Cx { rep, replay, verbose, family: String::new() };
-    cx.rep.see("nontrivial", case_seed);
+    cx.rep.see_counted("nontrivial", 1); // case seeds are distinct by construction (mix of seed, mode, index)
     let rr = *rng.pick(&[5i64, 20, 100, 400]);
     let pt = |rng: &mut Rng| (rng.range_i64(-rr, rr), rng.range_i64(-rr, rr));
     let res = catch(|| {
@@ -634,7 +634,7 @@ fn run_real_case(case_seed: u64, rep: &mut Report, verbose: bool) {
     let mut rng = Rng::new(case_seed);
     let replay = vec!["--mode".into(), "real".into(), "--case".into(), format!("{}", case_seed)];
     let mut cx = Cx { rep, replay, verbose, family: String::new() };
-    cx.rep.see("nontrivial", case_seed);
+    cx.rep.see_counted("nontrivial", 1); // case seeds are distinct by construction (mix of seed, mode, index)
     let res = catch(|| {
         let ang = rng.f64_range(0.0, std::f64::consts::TAU);
         // keep every coordinate of every reported point inside +-1e3
